@@ -160,6 +160,8 @@ class Fn:
                 return b, "(%s %s)" % (t[3] + e.attr, c), t[2][e.attr]
             if t == ("list", "F") and e.attr == "size":
                 return b, "(py_len %s)" % c, "int"
+            if t == "MAT" and e.attr == "T" and "np_matmul" in self.externs:
+                return b, "(np_transpose %s)" % c, "MAT"
             raise Unsupported("attribute %s" % ast.unparse(e))
         if isinstance(e, ast.IfExp):
             bc, cc, tc = self.expr(e.test, env)
@@ -186,6 +188,9 @@ class Fn:
             b1, c1, t1 = self.expr(e.left, env)
             b2, c2, t2 = self.expr(e.comparators[0], env)
             op = type(e.ops[0])
+            if t1 == ("list", "F") and t2 in ("F", "int") and op is ast.Lt:
+                c2f = c2 if t2 == "F" else "(of_int %s)" % c2
+                return b1 + b2, "(map (fun a_ => fltb a_ %s) %s)" % (c2f, c1), ("list", "bool")
             if t1 == "F" and t2 == "F" and op in (ast.Lt, ast.Gt):
                 # float comparison: a > b is b < a
                 return b1 + b2, ("(fltb %s %s)" % ((c1, c2) if op is ast.Lt else (c2, c1))), "bool"
@@ -229,6 +234,15 @@ class Fn:
         b = b1 + b2
         op = type(e.op)
         VEC = ("list", "F")
+        if "np_matmul" in self.externs and "MAT" in (t1, t2):
+            # dense matrices are opaque: their arithmetic is a named BLAS / NumPy oracle
+            if op is ast.MatMult and (t1, t2) == ("MAT", "MAT"):
+                return b, "(np_matmul %s %s)" % (c1, c2), "MAT"
+            if op is ast.Sub and (t1, t2) == ("MAT", "MAT"):
+                return b, "(np_mat_sub %s %s)" % (c1, c2), "MAT"
+            if op is ast.Mult and t1 in ("F", "int") and t2 == "MAT":
+                return b, "(np_mat_scale %s %s)" % (c1 if t1 == "F" else "(of_int %s)" % c1, c2), "MAT"
+            raise Unsupported("matrix arithmetic %s" % ast.unparse(e))
         if op in (ast.Add, ast.Sub, ast.Mult, ast.Div) and (t1 in ("F", VEC, "nd") or t2 in ("F", VEC, "nd")):
             # floating-point kernels: elementwise NumPy arithmetic over the abstract carrier F
             f = {ast.Add: "fadd", ast.Sub: "fsub", ast.Mult: "fmul", ast.Div: "fdiv"}[op]
@@ -435,6 +449,32 @@ class Fn:
                 return b, "(np_log (of_int %s))" % c, "F"
             if t == "F":
                 return b, "(np_log %s)" % c, "F"
+        if fn in ("np.square", "np.sqrt") and len(e.args) == 1 and not e.keywords:
+            b, c, t = self.expr(e.args[0], env)
+            if t == ("list", "F"):
+                if fn == "np.square":
+                    return b, "(map (fun a_ => fmul a_ a_) %s)" % c, t
+                if "fsqrt" in self.externs:
+                    return b, "(map fsqrt %s)" % c, t
+        if fn == "np.ones" and len(e.args) == 1 and not e.keywords and isinstance(e.args[0], ast.Attribute) and e.args[0].attr == "shape":
+            b, c, t = self.expr(e.args[0].value, env)
+            if t == ("list", "F"):
+                return b, "(repeat f1 (length %s))" % c, t
+        if fn == "np.where" and len(e.args) == 3 and not e.keywords:
+            bc, cc, tc = self.expr(e.args[0], env)
+            ops = [self.expr(a, env) for a in e.args[1:]]
+            if tc == ("list", "bool") and all(o[2] in ("F", ("list", "F"), "int") for o in ops):
+                nds = ["(NdVec %s)" % o[1] if o[2] == ("list", "F") else "(NdScalar %s)" % (o[1] if o[2] == "F" else "(of_int %s)" % o[1]) for o in ops]
+                v = self.fresh()
+                return bc + ops[0][0] + ops[1][0] + [(v, "np_where %s %s %s" % (cc, nds[0], nds[1]))], v, ("list", "F")
+        if fn == "np.diag" and "np_diag" in self.externs and len(e.args) == 1 and not e.keywords:
+            b, c, t = self.expr(e.args[0], env)
+            if t == ("list", "F"):
+                return b, "(np_diag %s)" % c, "MAT"
+        if fn == "np.linalg.eigh" and "np_eigh" in self.externs and len(e.args) == 1 and not e.keywords:
+            b, c, t = self.expr(e.args[0], env)
+            if t == "MAT":
+                return b, "(np_eigh %s)" % c, ("tuple", [("list", "F"), "MAT"])
         if fn == "np.sum" and len(e.args) == 1 and not e.keywords:
             b, c, t = self.expr(e.args[0], env)
             if t == ("list", "F"):
@@ -615,6 +655,15 @@ class Fn:
             if len(s.targets) != 1:
                 raise Unsupported("multiple assignment")
             tgt = s.targets[0]
+            if isinstance(tgt, ast.Tuple) and len(tgt.elts) == 2 and all(isinstance(x, ast.Name) for x in tgt.elts) \
+                    and not (isinstance(s.value, ast.Attribute) and s.value.attr == "shape"):
+                b, c, t = self.expr(s.value, env)
+                if not (isinstance(t, tuple) and t[0] == "tuple" and len(t[1]) == 2):
+                    raise Unsupported("unpacking of %s" % (t,))
+                env2 = dict(env)
+                env2[tgt.elts[0].id], env2[tgt.elts[1].id] = t[1][0], t[1][1]
+                return self.wrap(b, "let %s := (fst %s) in\n  let %s := (snd %s) in\n  %s" % (
+                    cname(tgt.elts[0].id), c, cname(tgt.elts[1].id), c, nxt(env2)))
             if isinstance(tgt, ast.Subscript) and isinstance(tgt.value, ast.Name) and isinstance(env.get(tgt.value.id), tuple) \
                     and env[tgt.value.id][0] == "dict" and not isinstance(tgt.slice, (ast.Slice, ast.Tuple)):
                 a = tgt.value.id
@@ -911,7 +960,7 @@ TARGETS = {
                                  {("assign_point_cluster_labels", "label_assignment_cost"): "arr2",
                                   ("assign_point_cluster_labels", "label_switching_cost"): "nd",
                                   ("assign_point_cluster_labels", "return"): ("tuple", [("list", "int"), "F"])}),
-    "solver": ("admm/solver.py", ["soft_threshold_prox", "admm_update_u", "admm_update_z", "check_convergence"],
+    "solver": ("admm/solver.py", ["soft_threshold_prox", "admm_update_u", "admm_update_z", "check_convergence", "x_update_prox"],
                {("soft_threshold_prox", "scaled_point_sum"): "F", ("soft_threshold_prox", "lambda_sum"): "F",
                 ("soft_threshold_prox", "rho_times_r"): "F", ("soft_threshold_prox", "return"): "F",
                 ("admm_update_u", "u"): ("list", "F"), ("admm_update_u", "x"): ("list", "F"), ("admm_update_u", "z"): ("list", "F"),
@@ -925,7 +974,9 @@ TARGETS = {
                                                 "at_", "(admm_tol_args F)"),
                 ("check_convergence", "u"): ("list", "F"), ("check_convergence", "x"): ("list", "F"),
                 ("check_convergence", "z"): ("list", "F"), ("check_convergence", "z_old"): ("list", "F"),
-                ("check_convergence", "return"): ("tuple", ["bool", "F", "F", "F", "F"])}),
+                ("check_convergence", "return"): ("tuple", ["bool", "F", "F", "F", "F"]),
+                ("x_update_prox", "empirical_covariance"): "MAT", ("x_update_prox", "z_minus_u"): "MAT", ("x_update_prox", "rho"): "F",
+                ("x_update_prox", "return"): ("list", "F")}),
     "cluster_metrics": ("cluster_metrics.py", ["bayesian_information_criterion"],
                         {("bayesian_information_criterion", "model"):
                          ("record", "bic_model",
@@ -963,10 +1014,22 @@ KERNEL_MODULES = {
                  "  Variable fleb : F -> F -> bool.               (* <= on float64 *)\n"
                  "  Variable flit : string -> F.                  (* a float literal, named by its decimal text *)\n"
                  "  Variable math_sqrt : F -> F.                  (* math.sqrt *)\n"
-                 "  Variable np_norm : list F -> F.               (* np.linalg.norm on a 1-D array (BLAS nrm2) *)\n"),
+                 "  Variable np_norm : list F -> F.               (* np.linalg.norm on a 1-D array (BLAS nrm2) *)\n"
+                 "  Variable M : Type.                            (* dense 2-D float64 matrices (opaque) *)\n"
+                 "  Variable fsqrt : F -> F.                      (* sqrt on float64 (np.sqrt elementwise) *)\n"
+                 "  Variable np_eigh : M -> list F * M.           (* np.linalg.eigh: eigenvalues, eigenvectors (LAPACK) *)\n"
+                 "  Variable np_matmul : M -> M -> M.             (* a @ b (BLAS) *)\n"
+                 "  Variable np_transpose : M -> M.               (* a.T *)\n"
+                 "  Variable np_mat_sub : M -> M -> M.            (* a - b, elementwise *)\n"
+                 "  Variable np_mat_scale : F -> M -> M.          (* c * a, elementwise *)\n"
+                 "  Variable np_diag : list F -> M.               (* np.diag of a 1-D array *)\n"
+                 "  Variable compress_matrix : M -> list F.       (* matrix_compression.compress_matrix (modelled in Model/TriIndex.v) *)\n"),
         "externs": {
             "fleb": ([], None, "fleb", False), "flit": ([], None, "flit", False),
             "math_sqrt": ([], None, "math_sqrt", False), "np_norm": ([], None, "np_norm", False),
+            "fsqrt": ([], None, "fsqrt", False), "np_eigh": ([], None, "np_eigh", False), "np_matmul": ([], None, "np_matmul", False),
+            "np_diag": ([], None, "np_diag", False),
+            "matrix_compression.compress_matrix": (["MAT"], ("list", "F"), "compress_matrix", False),
             "compute_lambda_sum": (["LAM", "int", "int", "int", "int", "int"], "F", "compute_lambda_sum", True),
             "unique_values.locations_compressed": (["int"] * 5, ("list", "int"), "g_locations_compressed", True),
         }},
@@ -1155,11 +1218,24 @@ class Skel:
             if op not in tbl or t1 != "Z" or t2 != "Z":
                 raise Unsupported("comparison %s" % ast.unparse(e))
             return binds, tbl[op] % (c1, c2), "bool"
+        if isinstance(e, (ast.ListComp, ast.JoinedStr)) or (isinstance(e, ast.Constant) and isinstance(e.value, str)):
+            # an expression outside the subset whose value only flows on: one uninterpreted (logged) operation on its free variables
+            bound = set()
+            for n in ast.walk(e):
+                if isinstance(n, ast.comprehension):
+                    bound |= {x.id for x in ast.walk(n.target) if isinstance(x, ast.Name)}
+            free = sorted({n.id for n in ast.walk(e) if isinstance(n, ast.Name) and isinstance(n.ctx, ast.Load) and n.id in env and n.id not in bound})
+            v = self.fresh()
+            text = ast.unparse(e).replace('"', "'")
+            return [(v, 'call oracle "expr:%s" [%s]' % (text, "; ".join(self.toV(cname(n), env[n]) for n in free)))], v, "V"
         if isinstance(e, ast.Call):
             fn = ast.unparse(e.func)
+            if any(k.arg is None for k in e.keywords):
+                raise Unsupported("**kwargs in call of %s" % fn)
+            args = [self.expr(a, env) for a in e.args] + [self.expr(k.value, env) for k in e.keywords]
             if e.keywords:
-                raise Unsupported("keyword arguments in call of %s" % fn)
-            args = [self.expr(a, env) for a in e.args]
+                # keyword arguments: the names become part of the callee's label, the values follow the positional ones
+                fn = fn + "(" + ",".join(k.arg + "=" for k in e.keywords) + ")"
             binds = sum((a[0] for a in args), [])
             argv = [self.toV(a[1], a[2]) for a in args]
             if isinstance(e.func, ast.Attribute):
@@ -1173,7 +1249,8 @@ class Skel:
                         raise Unsupported("method of a %s" % to)
                     binds = bo + binds
                     v = self.fresh()
-                    return binds + [(v, 'call oracle "method:%s" [%s]' % (e.func.attr, "; ".join([co] + argv)))], v, "V"
+                    mlabel = e.func.attr + ("(" + ",".join(k.arg + "=" for k in e.keywords) + ")" if e.keywords else "")
+                    return binds + [(v, 'call oracle "method:%s" [%s]' % (mlabel, "; ".join([co] + argv)))], v, "V"
             v = self.fresh()
             return binds + [(v, 'call oracle "%s" [%s]' % (fn, "; ".join(argv)))], v, "V"
         raise Unsupported("expression %s" % ast.unparse(e))
@@ -1311,6 +1388,30 @@ class Skel:
             self.depth -= 1
             return self.wrap(b, "%s <<- for_break (fun %s %s =>\n  %s) (zrange %s) %s ;;\n  %s" % (
                 p_, p_ if p_ != "_" else "_", cname(s.target.id), body, c, t_, nxt(env)))
+        if isinstance(s, ast.Try) and not s.orelse and not s.finalbody and len(s.handlers) == 1 and s.handlers[0].type is not None \
+                and ast.unparse(s.handlers[0].type) != "BaseException":
+            # try: body  except X as n: raise Y(<text>) from n   - exception X of the body is replaced by Y, everything else passes
+            h = s.handlers[0]
+            exc = ast.unparse(h.type)
+            if not (exc.isidentifier() and len(h.body) == 1 and isinstance(h.body[0], ast.Raise) and isinstance(h.body[0].exc, ast.Call)
+                    and isinstance(h.body[0].exc.func, ast.Name) and h.body[0].cause is not None and isinstance(h.body[0].cause, ast.Name)
+                    and h.body[0].cause.id == h.name
+                    and not any(isinstance(n, ast.Call) for a in h.body[0].exc.args for n in ast.walk(a))):
+                raise Unsupported("except clause form")
+            new_exc = h.body[0].exc.func.id
+            names = self.assigned(s.body)
+            t_, p_ = self.tup(names)
+
+            def kbody(e2):
+                for n in names:
+                    if n not in e2:
+                        raise Unsupported("%s is not bound on every path of the try body" % n)
+                return "mret %s" % t_
+            body = self.block(s.body, env, kbody, None)
+            env2 = dict(env)
+            for n in names:
+                env2[n] = "V"
+            return '%s <<- try_map (\n  %s) "%s" "%s" ;;\n  %s' % (p_, body, exc, new_exc, nxt(env2))
         if isinstance(s, ast.Try):
             if s.orelse or s.finalbody or len(s.handlers) != 1:
                 raise Unsupported("try form")
@@ -1333,8 +1434,9 @@ class Skel:
     def translate(self):
         f = self.node
         a = f.args
-        if a.vararg or a.kwarg or a.kwonlyargs or a.posonlyargs or a.defaults:
+        if a.vararg or a.kwarg or a.kwonlyargs or a.posonlyargs:
             raise Unsupported("argument form")
+        # (default values only matter to callers that omit an argument; the translated function takes every parameter)
         env = {arg.arg: "V" for arg in a.args}
 
         def kend(env2):
@@ -1369,7 +1471,10 @@ Section Gen.
 
 SKEL_TARGETS = {"main_loop": ("main_loop.py", "fit_stacked_data", "bayesian_ic", ["current_model_state"]),
                 # the whole function (no cut): control flow of the ADMM iteration
-                "solver_loop": ("admm/solver.py", "run_admm_optimization", None, [])}
+                "solver_loop": ("admm/solver.py", "run_admm_optimization", None, []),
+                # the two public entry points: argument bundling, stacking, error mapping, main loop, label plumbing
+                "front_single": ("front_end.py", "ticc_labels", None, []),
+                "front_joint": ("front_end.py", "ticc_joint_labels", None, [])}
 
 
 def translate_skeleton(mod, src_root):
